@@ -44,6 +44,7 @@ func eventsAlphabet() *term.Alphabet {
 			sig("h", B, B, B, B),
 			sig("boom", B),
 			sig("bv", I, I),
+			sig("ri", I, I),
 		},
 	}
 }
@@ -295,7 +296,11 @@ func c12(r *rep.Run) {
 						}
 						env.Eval(trees[c.o.OptBits()])
 						var wantApps, gotApps []ref.Ev
+						undefinedApp := false
 						for _, a := range env.Apps {
+							if a.Err == ref.ErrUndefined {
+								undefinedApp = true // the reference does not define this application (a value of a foreign Go type)
+							}
 							if !isBoolOpName(a.Name) {
 								wantApps = append(wantApps, a)
 							}
@@ -309,7 +314,7 @@ func c12(r *rep.Run) {
 								gotApps = append(gotApps, ref.Ev{Name: od.OpName, Args: args, Res: od.Res, Err: od.Err})
 							}
 						}
-						if !appsEqual(gotApps, wantApps) {
+						if !undefinedApp && !appsEqual(gotApps, wantApps) {
 							r.Violate("opexec-sequence", p.Src+c.o.String(), "the OP_EXEC events are not exactly the operator applications of this evaluation", d(map[string]interface{}{"events": traceStr(gotApps), "applications": traceStr(wantApps)}))
 						}
 					}
